@@ -72,7 +72,8 @@ def compile_run(name, cpp_text, args=(), exclude_objs=(), sanitize=False, timeou
                 break
     except (OSError, ValueError):
         pass
-    cmd = ["g++", "-std=c++11", "-O0", "-g", "-w"] + defs + (["-fsanitize=undefined", "-fno-sanitize-recover=undefined"] if sanitize else []) + \
+    # -fno-access-control: replay drivers call private members of the real classes
+    cmd = ["g++", "-std=c++11", "-O0", "-g", "-w", "-fno-access-control"] + defs + (["-fsanitize=undefined", "-fno-sanitize-recover=undefined"] if sanitize else []) + \
         INCLUDES + ["-o", exe, src] + objs + ["-lpthread"]
     p = subprocess.run(cmd, stdout=subprocess.PIPE, stderr=subprocess.STDOUT)
     if p.returncode != 0:
